@@ -5,8 +5,9 @@ x/amm/keeper/keeper_swap_exact_amount_in.go `InternalSwapExactAmountIn` and keep
 `UpdatePoolForSwap` moves the coins.  `.ok true` = the hop is settled; an error = refused before anything moved.
 The amount the pool arithmetic quotes (`SwapOutAmtGivenIn` / `SwapInAmtGivenOut`, a read of the outside world here: a free
 term) is compared with the limit the caller states, as the source has it now, for every quote and every limit.
-NOT covered by these theorems: that `UpdatePoolForSwap` is then called with that same coin (outside the prefix; the request
-blocks of mode c04 judge it on the real code), and the route loops that hand the user's limit to the last / first hop.
+The call of `UpdatePoolForSwap` is inside the prefix as a skipped effect whose arguments are pinned by the table (`gen_free_swap_guards`).
+NOT covered by these theorems: what `UpdatePoolForSwap` does with them (the request blocks of mode c04 judge it on the real code), and the
+route loops that hand the user's limit to the last / first hop.
 Property theorems only.
 -/
 import ElysModel.Gen.Arith.swapExactInGuards
@@ -17,8 +18,8 @@ open Elys Elys.Amm
 
 /-- exact-in: a hop is settled only when the quoted output is positive and at least the stated minimum — whatever the pool
 arithmetic quoted, whatever bonus or slippage it reported alongside. -/
-theorem gen_exact_in_min_out (denomOut : String) (minOut fee : Int) (same : Bool) (slip bonus oracleOut : Int) (err : Bool) (quoted : Int)
-    (h : Gen.Arith.swapExactInGuards denomOut minOut fee same slip bonus oracleOut err quoted = .ok true) :
+theorem gen_exact_in_min_out (denomOut : String) (minOut fee : Int) (same : Bool) (slip bonus oracleOut : Int) (err : Bool) (quoted : Int) (upErr : Bool)
+    (h : Gen.Arith.swapExactInGuards denomOut minOut fee same slip bonus oracleOut err quoted upErr = .ok true) :
     same = false ∧ err = false ∧ 0 < quoted ∧ minOut ≤ quoted := by
   unfold Gen.Arith.swapExactInGuards at h
   by_cases hs : same = true
@@ -31,10 +32,17 @@ theorem gen_exact_in_min_out (denomOut : String) (minOut fee : Int) (same : Bool
     · exact ⟨by simpa using hs, by simpa using he, h1, by omega⟩
   · simp [hs, he, h1] at h
 
+/-- … and only when the settlement itself (`UpdatePoolForSwap`, which moves the coins) did not fail. -/
+theorem gen_exact_in_settlement_failed (denomOut : String) (minOut fee : Int) (same : Bool) (slip bonus oracleOut : Int) (err : Bool) (quoted : Int) :
+    Gen.Arith.swapExactInGuards denomOut minOut fee same slip bonus oracleOut err quoted true ≠ .ok true := by
+  unfold Gen.Arith.swapExactInGuards
+  cases same <;> cases err <;> simp
+  by_cases h1 : quoted ≤ 0 <;> by_cases h2 : quoted < minOut <;> simp [h1, h2]
+
 /-- exact-in, the other direction: a positive quote at or above the minimum, in another denom than the input, is let through
 (the guards refuse nothing else). -/
 theorem gen_exact_in_complete (denomOut : String) (minOut fee slip bonus oracleOut quoted : Int) (h1 : 0 < quoted) (h2 : minOut ≤ quoted) :
-    Gen.Arith.swapExactInGuards denomOut minOut fee false slip bonus oracleOut false quoted = .ok true := by
+    Gen.Arith.swapExactInGuards denomOut minOut fee false slip bonus oracleOut false quoted false = .ok true := by
   unfold Gen.Arith.swapExactInGuards
   have : ¬ quoted < minOut := by omega
   simp [h1, this, pure, Except.pure]
@@ -42,8 +50,8 @@ theorem gen_exact_in_complete (denomOut : String) (minOut fee slip bonus oracleO
 /-- exact-out: a hop is settled only when the quoted input is positive and at most the stated maximum, and the amount asked
 for is strictly less than the pool's reserve of it. -/
 theorem gen_exact_out_max_in (denomIn : String) (maxIn fee : Int) (same : Bool) (reserve : Int) (denomOut : String) (out : Int)
-    (slip bonus oracleIn : Int) (err : Bool) (quoted : Int)
-    (h : Gen.Arith.swapExactOutGuards denomIn maxIn fee same reserve denomOut out slip bonus oracleIn err quoted = .ok true) :
+    (slip bonus oracleIn : Int) (err : Bool) (quoted : Int) (upErr : Bool)
+    (h : Gen.Arith.swapExactOutGuards denomIn maxIn fee same reserve denomOut out slip bonus oracleIn err quoted upErr = .ok true) :
     same = false ∧ err = false ∧ out < reserve ∧ 0 < quoted ∧ quoted ≤ maxIn := by
   unfold Gen.Arith.swapExactOutGuards at h
   by_cases hs : same = true
@@ -61,25 +69,28 @@ theorem gen_exact_out_max_in (denomIn : String) (maxIn fee : Int) (same : Bool) 
 /-- exact-out with a stated maximum of zero or less is never settled (seeded change C04-5 made the guard apply to a positive
 maximum only). -/
 theorem gen_exact_out_nonpositive_max_refused (denomIn : String) (maxIn fee : Int) (same : Bool) (reserve : Int) (denomOut : String) (out : Int)
-    (slip bonus oracleIn : Int) (err : Bool) (quoted : Int) (hm : maxIn ≤ 0) :
-    Gen.Arith.swapExactOutGuards denomIn maxIn fee same reserve denomOut out slip bonus oracleIn err quoted ≠ .ok true := by
+    (slip bonus oracleIn : Int) (err : Bool) (quoted : Int) (upErr : Bool) (hm : maxIn ≤ 0) :
+    Gen.Arith.swapExactOutGuards denomIn maxIn fee same reserve denomOut out slip bonus oracleIn err quoted upErr ≠ .ok true := by
   intro h
-  have := gen_exact_out_max_in _ _ _ _ _ _ _ _ _ _ _ _ h
+  have := gen_exact_out_max_in _ _ _ _ _ _ _ _ _ _ _ _ _ h
   omega
 
 /-- non-vacuity: a quote of 990 against a minimum of 980 is settled, against 991 refused; a quote of 1010 against a maximum
 of 1010 is settled. -/
-example : Gen.Arith.swapExactInGuards "uusdc" 980 0 false 0 0 0 false 990 = .ok true ∧
-    Gen.Arith.swapExactInGuards "uusdc" 991 0 false 0 0 0 false 990 = .error .limitMax ∧
-    Gen.Arith.swapExactOutGuards "uatom" 1010 0 false 5000 "uusdc" 1000 0 0 0 false 1010 = .ok true := ⟨rfl, rfl, rfl⟩
+example : Gen.Arith.swapExactInGuards "uusdc" 980 0 false 0 0 0 false 990 false = .ok true ∧
+    Gen.Arith.swapExactInGuards "uusdc" 991 0 false 0 0 0 false 990 false = .error .limitMax ∧
+    Gen.Arith.swapExactOutGuards "uatom" 1010 0 false 5000 "uusdc" 1000 0 0 0 false 1010 false = .ok true := ⟨rfl, rfl, rfl⟩
 
-set_option maxRecDepth 20000 in
-/-- what the guards compare: the amount of the coin the pool arithmetic returned for THIS call (pool, snapshot of this
-block, the caller's token and fee) — and the stated limit (parameter #7 resp. #6); the bonus (#3) is read and not added to it. -/
+set_option maxRecDepth 40000 in
+/-- what the guards compare: the amount of the coin the pool arithmetic returned for THIS call (pool, snapshot of this block, the caller's
+token and fee) — and the stated limit (parameter #7 resp. #6); the bonus is read and not added to it. And what is settled: `UpdatePoolForSwap`
+is handed THAT SAME coin (the fifth resp. fourth argument is the first result of the same call), the caller's sender and recipient, the
+token named in the request — the tie between the quote that was checked and the coins that move. -/
 theorem gen_free_swap_guards :
-    (Gen.Arith.freeOf "swapExactInGuards").getLast? = some "#4.SwapOutAmtGivenIn(#1, #0.oracleKeeper, &#0.GetAccountedPoolSnapshotOrSet(#1, #4), sdk.Coins{#5}, #6, #8, #0.accountedPoolKeeper, math.LegacyOneDec(), #0.GetParams(#1)).Amount" ∧
-    (Gen.Arith.freeOf "swapExactOutGuards").getLast? = some "#4.SwapInAmtGivenOut(#1, #0.oracleKeeper, &#0.GetAccountedPoolSnapshotOrSet(#1, #4), sdk.Coins{#7}, #5, #8, #0.accountedPoolKeeper, math.LegacyOneDec(), #0.GetParams(#1)).Amount" ∧
+    (Gen.Arith.freeOf "swapExactInGuards")[5]? = some "#4.SwapOutAmtGivenIn(#1, #0.oracleKeeper, &#0.GetAccountedPoolSnapshotOrSet(#1, #4), sdk.Coins{#5}, #6, #8, #0.accountedPoolKeeper, math.LegacyOneDec(), #0.GetParams(#1)).Amount" ∧
+    (Gen.Arith.freeOf "swapExactOutGuards")[8]? = some "#4.SwapInAmtGivenOut(#1, #0.oracleKeeper, &#0.GetAccountedPoolSnapshotOrSet(#1, #4), sdk.Coins{#7}, #5, #8, #0.accountedPoolKeeper, math.LegacyOneDec(), #0.GetParams(#1)).Amount" ∧
     (Gen.Arith.freeOf "swapExactOutGuards").take 4 = ["#5 == #7.Denom", "#4.GetTotalPoolLiquidity()", "#7.Denom", "#7.Amount"] ∧
-    Gen.Arith.skippedOf "swapExactInGuards" = ["defer"] ∧ Gen.Arith.skippedOf "swapExactOutGuards" = ["defer"] := by decide
+    Gen.Arith.skippedOf "swapExactInGuards" = ["defer", "#0.UpdatePoolForSwap(#1, #4, #2, #3, #5, #4.SwapOutAmtGivenIn(#1, #0.oracleKeeper, &#0.GetAccountedPoolSnapshotOrSet(#1, #4), sdk.Coins{#5}, #6, #8, #0.accountedPoolKeeper, math.LegacyOneDec(), #0.GetParams(#1)), #8, math.ZeroInt(), oracleOutAmount.TruncateInt(), weightBalanceBonus, false)"] ∧
+    Gen.Arith.skippedOf "swapExactOutGuards" = ["defer", "#0.UpdatePoolForSwap(#1, #4, #2, #3, #4.SwapInAmtGivenOut(#1, #0.oracleKeeper, &#0.GetAccountedPoolSnapshotOrSet(#1, #4), sdk.Coins{#7}, #5, #8, #0.accountedPoolKeeper, math.LegacyOneDec(), #0.GetParams(#1)), #7, #8, oracleInAmount.TruncateInt(), math.ZeroInt(), weightBalanceBonus, true)"] := by decide
 
 end Elys.Amm.C04Src
